@@ -261,3 +261,132 @@ Print Assumptions ex_c14_hypotheses_satisfiable.
 Example ex_c14_lower_triangular_factors : @lower QcF 2 exL /\ @lower QcF 2 exC.
 Proof. exact ex_lower. Qed.
 Print Assumptions ex_c14_lower_triangular_factors.
+
+(* ------------------------------------------------------------------------------------------ *)
+(* the KL statements without determinant / inverse-of-the-factor side conditions               *)
+(* (Base/Cholesky.v, Proofs/C10_kl_pd.v, Proofs/C14_kl_pd.v)                                    *)
+From GPV Require Import Base.Psd Base.Cholesky Proofs.C14_kl_pd.
+
+(* [c14_kl_whitened_eq_unwhitened_log] for EVERY symmetric positive definite S_w ([PD] of Base/Psd.v)
+   and every invertible root L of Kzz: the hypotheses 0 < det S_w, 0 < det Kzz are discharged (all three
+   determinants are positive), the two complete expressions for 2 KL coincide and the value is >= 0 *)
+Theorem c14_kl_whitened_eq_unwhitened_log_pd :
+  forall m (Kzz Kinv L Linv : @M RF),
+    meq m m (mmul m L (mT L)) Kzz -> is_inverse m L Linv -> is_inverse m Kzz Kinv ->
+    forall (mz mw Sw : @M RF), symmetric m Sw -> @PD RF ROrd m Sw ->
+    (0 < det m Sw)%R /\ (0 < det m Kzz)%R /\ (0 < det m (unwhiten_cov m L Sw))%R /\
+    (kl_wh_alg m Sw mw - fnat m - ln (det m Sw)
+     = kl_unwh_alg m Kinv (unwhiten_cov m L Sw) (unwhiten_mean m L mz mw) mz - fnat m
+       + ln (det m Kzz) - ln (det m (unwhiten_cov m L Sw)))%R /\
+    (0 <= kl_wh_alg m Sw mw - fnat m - ln (det m Sw))%R.
+Proof. exact kl_whitened_eq_log_pd. Qed.
+Print Assumptions c14_kl_whitened_eq_unwhitened_log_pd.
+
+(* the factor the code uses (Cholesky factor of Kzz: lower triangular, non-zero diagonal): its inverse
+   is constructed by forward substitution (c10_triangular_factor_invertible), not assumed *)
+Theorem c14_kl_whitened_eq_unwhitened_log_cholesky :
+  forall m (Kzz Kinv L : @M RF),
+    tri_lower m L -> (forall i, (i < m)%nat -> L i i <> 0%R) ->
+    meq m m (mmul m L (mT L)) Kzz -> is_inverse m Kzz Kinv ->
+    forall (mz mw Sw : @M RF), symmetric m Sw -> @PD RF ROrd m Sw ->
+    (0 < det m Sw)%R /\ (0 < det m Kzz)%R /\ (0 < det m (unwhiten_cov m L Sw))%R /\
+    (kl_wh_alg m Sw mw - fnat m - ln (det m Sw)
+     = kl_unwh_alg m Kinv (unwhiten_cov m L Sw) (unwhiten_mean m L mz mw) mz - fnat m
+       + ln (det m Kzz) - ln (det m (unwhiten_cov m L Sw)))%R /\
+    (0 <= kl_wh_alg m Sw mw - fnat m - ln (det m Sw))%R.
+Proof. exact kl_whitened_eq_log_cholesky. Qed.
+Print Assumptions c14_kl_whitened_eq_unwhitened_log_cholesky.
+
+(* ... and every symmetric PD Kzz has such a factor *)
+Theorem c14_pd_prior_has_whitening_factor :
+  forall m (Kzz : @M RF), symmetric m Kzz -> @PD RF ROrd m Kzz ->
+    exists L : @M RF, tri_lower m L /\ (forall i, (i < m)%nat -> L i i <> 0%R) /\
+                      meq m m (mmul m L (mT L)) Kzz.
+Proof. exact pd_prior_has_whitening_factor. Qed.
+Print Assumptions c14_pd_prior_has_whitening_factor.
+
+(* the whitened 2 KL alone: KL( N(m_w, S_w) || N(0, I) ) >= 0 for every symmetric PD S_w *)
+Theorem c14_kl_whitened_nonneg_pd :
+  forall n (Sw mw : @M RF), symmetric n Sw -> @PD RF ROrd n Sw ->
+    (0 < det n Sw)%R /\ (0 <= kl_wh_alg n Sw mw - fnat n - ln (det n Sw))%R.
+Proof. exact kl_whitened_nonneg_pd. Qed.
+Print Assumptions c14_kl_whitened_nonneg_pd.
+
+Example ex_c14_kl_pd_hypotheses :
+  symmetric 2 exPD /\ @PD RF ROrd 2 exPD /\
+  tri_lower 2 C10_det.exR_L /\ (forall i, (i < 2)%nat -> C10_det.exR_L i i <> 0%R).
+Proof. exact ex_kl_pd_c14_hyps. Qed.
+Print Assumptions ex_c14_kl_pd_hypotheses.
+
+(* ---- the EXECUTED predictive q(f) and KL terms are the REAL-NUMBER ones (Base/Morph.v, Proofs/C14_morph.v) ----
+   The driver compares the implementation with run_c14 on exact rationals (+ ELog nodes around rational
+   determinants).  Q2R' is a field morphism QcF -> RF commuting with every operation of the model, so:
+   the certified inverses map to real inverses, the executed (staged) q(f) mean / covariance of the unwhitened and
+   whitened strategies are the generic definitions at RF on the mapped inputs, and the printed KL terms DENOTE the
+   real-number KL expressions the theorems above (c14_kl_whitened_eq_unwhitened_log_pd, c14_kl_whitened_nonneg_pd, ...)
+   are about - so those theorems are statements about the executed quantity.  Every m, n. *)
+From GPV Require Import Base.Morph Proofs.C14_morph.
+
+Theorem c14_executed_variational_is_real :
+  forall m n (Kzz Kzx Kxx mx mz mq Sq L A Sw mw : @M QcF) Kinv Linv,
+    inv_checked m Kzz = Some Kinv -> inv_checked m (mat m m L) = Some Linv ->
+    is_inverse m (mapR Kzz) (mapR Kinv) /\ is_inverse m (mapR L) (mapR Linv) /\
+    (forall i j, Q2R' (@unwh_mean_staged QcF m Kzx Kinv mx mz mq i j)
+       = @unwh_mean_staged RF m (mapR Kzx) (mapR Kinv) (mapR mx) (mapR mz) (mapR mq) i j) /\
+    (forall i j, Q2R' (@unwh_cov_staged QcF m n Kzz Kzx Kxx Kinv Sq i j)
+       = @unwh_cov_staged RF m n (mapR Kzz) (mapR Kzx) (mapR Kxx) (mapR Kinv) (mapR Sq) i j) /\
+    (forall i j, Q2R' (@interp QcF m Linv Kzx i j) = @interp RF m (mapR Linv) (mapR Kzx) i j) /\
+    (forall i j, Q2R' (@wh_mean QcF m A mx mw i j) = @wh_mean RF m (mapR A) (mapR mx) (mapR mw) i j) /\
+    (forall i j, Q2R' (@wh_cov_staged QcF m n A Kxx Sw i j)
+       = @wh_cov_staged RF m n (mapR A) (mapR Kxx) (mapR Sw) i j).
+Proof. exact executed_variational_is_real. Qed.
+Print Assumptions c14_executed_variational_is_real.
+
+(* the printed KL terms (all four branches of kl_wh_expr / kl_unwh_expr) denote the real KL expressions *)
+Theorem c14_executed_kl_is_real_kl :
+  forall n (Kp Kpinv Sq mq mz Sw mw : @M QcF),
+    den (kl_wh_expr n true Sw mw)
+      = (/ 2 * (@kl_wh_alg RF n (mapR Sw) (mapR mw) - @fnat RF n - ln (@det RF n (mapR Sw))))%R /\
+    den (kl_wh_expr n false Sw mw)
+      = (/ 2 * @dot RF n (mapR mw) (mapR mw) + / 2 * @fnat RF n * ln (2 * PI))%R /\
+    den (kl_unwh_expr n true Kp Kpinv Sq mq mz)
+      = (/ 2 * (@kl_unwh_alg RF n (mapR Kpinv) (mapR Sq) (mapR mq) (mapR mz) - @fnat RF n
+               + (ln (@det RF n (mapR Kp)) - ln (@det RF n (mapR Sq)))))%R /\
+    den (kl_unwh_expr n false Kp Kpinv Sq mq mz)
+      = (/ 2 * @quad RF n (@msub RF (mapR mq) (mapR mz)) (mapR Kpinv)
+        + (/ 2 * ln (@det RF n (mapR Kp)) + / 2 * @fnat RF n * ln (2 * PI)))%R.
+Proof. exact den_kl_exprs. Qed.
+Print Assumptions c14_executed_kl_is_real_kl.
+
+(* consequence: whenever the real image of the executed S_w is symmetric positive definite, the determinant under
+   the printed ELog node is positive and the EXECUTED whitened KL term is >= 0 *)
+Theorem c14_executed_kl_whitened_nonneg :
+  forall n (Sw mw : @M QcF),
+    @symmetric RF n (mapR Sw) -> @PD RF ROrd n (mapR Sw) ->
+    (0 < Q2R' (@det QcF n Sw))%R /\ (0 <= den (kl_wh_expr n true Sw mw))%R.
+Proof. exact executed_kl_wh_nonneg. Qed.
+Print Assumptions c14_executed_kl_whitened_nonneg.
+
+(* the commutation itself, entrywise and for ANY field morphism (generic, no axioms) *)
+Theorem c14_variational_model_commutes_with_field_morphisms :
+  forall (K1 K2 : Fld) (phi : @car K1 -> @car K2), FldMorph K1 K2 phi ->
+  forall m r (Kzz Kzx Kxx Kinv mx mz mq S R A Sw mw L : @M K1) i j,
+    phi (@unwh_mean K1 m Kzx Kinv mx mz mq i j)
+      = @unwh_mean K2 m (mmap phi Kzx) (mmap phi Kinv) (mmap phi mx) (mmap phi mz) (mmap phi mq) i j /\
+    phi (@unwh_cov K1 m Kzz Kzx Kxx Kinv S i j)
+      = @unwh_cov K2 m (mmap phi Kzz) (mmap phi Kzx) (mmap phi Kxx) (mmap phi Kinv) (mmap phi S) i j /\
+    phi (@unwh_cov_code K1 m r Kzx Kxx Kinv R i j)
+      = @unwh_cov_code K2 m r (mmap phi Kzx) (mmap phi Kxx) (mmap phi Kinv) (mmap phi R) i j /\
+    phi (@wh_mean K1 m A mx mw i j) = @wh_mean K2 m (mmap phi A) (mmap phi mx) (mmap phi mw) i j /\
+    phi (@wh_cov K1 m A Kxx Sw i j) = @wh_cov K2 m (mmap phi A) (mmap phi Kxx) (mmap phi Sw) i j /\
+    phi (@unwhiten_mean K1 m L mz mw i j) = @unwhiten_mean K2 m (mmap phi L) (mmap phi mz) (mmap phi mw) i j /\
+    phi (@unwhiten_cov K1 m L Sw i j) = @unwhiten_cov K2 m (mmap phi L) (mmap phi Sw) i j /\
+    phi (@kl_wh_alg K1 m Sw mw) = @kl_wh_alg K2 m (mmap phi Sw) (mmap phi mw) /\
+    phi (@kl_unwh_alg K1 m Kinv S mq mz)
+      = @kl_unwh_alg K2 m (mmap phi Kinv) (mmap phi S) (mmap phi mq) (mmap phi mz).
+Proof. exact variational_model_commutes_with_field_morphisms. Qed.
+Print Assumptions c14_variational_model_commutes_with_field_morphisms.
+
+Example ex_c14_executed_kl_hypotheses : @symmetric RF 2 (mapR exq_Sw) /\ @PD RF ROrd 2 (mapR exq_Sw).
+Proof. exact ex_executed_kl_wh_hyps. Qed.
+Print Assumptions ex_c14_executed_kl_hypotheses.
